@@ -1366,18 +1366,32 @@ func hostnameFromHostPortBytes(hostPort []byte) []byte {
 }
 
 func isDomainOrSubdomainBytes(sub, parent []byte) bool {
-	// Host names are compared ASCII case-insensitively: Unicode folding would
-	// equate e.g. U+212A (Kelvin sign) with 'k' and trust a different host.
-	if caseInsensitiveCompare(sub, parent) {
+	// Host names are compared with only the ASCII letters folded: Unicode
+	// folding would equate e.g. U+212A (Kelvin sign) with 'k', and folding bit
+	// 5 of every byte equates different non-ASCII bytes - either way a
+	// different host would be trusted.
+	if equalFoldASCIILetters(sub, parent) {
 		return true
 	}
 	if len(sub) <= len(parent) || bytes.IndexByte(sub, ':') >= 0 || bytes.IndexByte(sub, '%') >= 0 {
 		return false
 	}
-	if !caseInsensitiveCompare(sub[len(sub)-len(parent):], parent) {
+	if !equalFoldASCIILetters(sub[len(sub)-len(parent):], parent) {
 		return false
 	}
 	return sub[len(sub)-len(parent)-1] == '.'
+}
+
+func equalFoldASCIILetters(a, b []byte) bool {
+	if len(a) != len(b) {
+		return false
+	}
+	for i := range a {
+		if toLowerTable[a[i]] != toLowerTable[b[i]] {
+			return false
+		}
+	}
+	return true
 }
 
 func splitHostPortBytes(hostPort []byte) ([]byte, []byte) {
